@@ -5,6 +5,16 @@ import json, subprocess, os
 ROOT = os.path.dirname(os.path.abspath(__file__))
 
 CHECKS = {
+ "C11": dict(
+  technique="model-based operation histories compiled into programs: complete decision-tree walk for short histories + rapid random histories (3-40 actions) on three arrays with shared ancestry, oracle = pure list model with reference identity, every live array and its লেন printed after every step",
+  text="Histories of literal creation (incl. nested arrays), aliasing by assignment / as an element / read back / through a function parameter, indexed read and write, লেন used as a number (arithmetic, as an index, as a loop bound, in ==), এড with 1-3 extras (result kept in a new or existing variable, or dropped) and রিমুভ at every valid index; every history of 2 (quick) / 3 (thorough) actions over a reduced alphabet plus random long ones; 29 faulting operations (negative, too-large, fractional, nil, boolean, string, array indexes for read/write/রিমুভ; built-ins on non-arrays) end a history and must be runtime errors with nothing printed afterwards. The full trace is compared with the model after every step. Exploration.",
+  note="Trusted: the reference list model. Container rendering is not pinned: the sequence of scalar renderings is compared. Numeric-looking strings as indexes are unspecified.",
+  ref="4 C11"),
+ "C12": dict(
+  technique="model-based operation histories compiled into programs (decision-tree walk + rapid random histories) on three objects with shared ancestry, oracle = map model with reference identity, plus a model-free check of key/value listing consistency on the actual output",
+  text="Histories of literal creation with 0-6 keys (nested objects/arrays), aliasing by assignment / nesting / parameter, property read, write to new and existing keys, কি_রিমুভ with literal and computed keys, key/value listings (each twice in a row); after every step every live object, its key list and its value list are printed. The trace is compared with the map model (listings as multisets), and independently the i-th listed value must be the value of the i-th listed key in the printed object, no key twice, consecutive listings identical. 26 faulting operations (absent key, '.' on every non-object kind, কি_রিমুভ misuse, listings of non-objects) must be runtime errors with nothing after. Exploration.",
+  note="Trusted: the reference map model; object rendering is compared as a multiset of keys and scalar values. Self-containing objects are not generated (printing them is open finding K13 of C07).",
+  ref="4 C12"),
  "C03": dict(
   technique="complete decision-tree walk of a scope-program generator (small scope) + rapid random programs over deliberately colliding names, oracle = independent scope-chain model; values unique per declaration/assignment so the value read identifies the binding",
   text="Programs over variables {a,b,c} with declarations, assignments, reads, blocks, if, bounded while, for loops whose variable comes from the colliding pool, function declarations with colliding parameters/locals, calls from scopes holding same-named locals, closures escaping their block. Every program the generator derives for two top-level statements within a construct bound is executed, plus random programs up to 40 constructs; complete stdout, outcome, and for the first redeclaration / undefined read / undefined assign the line and the name in the message are compared with the model. Programs where static and dynamic resolution differ are discarded (counted) as the property prescribes. Exploration.",
